@@ -151,6 +151,9 @@ func (n *UploadPackSession) negotiate() (stateFn, error) {
 func (n *UploadPackSession) negotiateTables(upr *payload.UploadPackResponse) (stateFn, error) {
 	acks := [][]byte{}
 	for _, sum := range upr.TableHaves {
+		if sum == nil {
+			return nil, fmt.Errorf("error requesting upload pack (state=negotiateTables): null entry in tableHaves")
+		}
 		b := (*sum)[:]
 		if objects.TableExist(n.db, b) {
 			acks = append(acks, b)
